@@ -7,6 +7,8 @@ CONSTANT Origs = {5, 6, 9}
 CONSTANT Pads = {0, 1, 2, 3, 4, 8}
 CONSTANT SzAs = {0, 1, 3, 44}
 CONSTANT SzBs = {0, 2, 155381}
+CONSTANT P2Pads = {0, 1, 2, 3, 4, 8}
+CONSTANT FlagDefect = FALSE
 CONSTANT WrapDefect = FALSE
 CONSTANT FullW = 16
 INIT Init
@@ -22,4 +24,8 @@ INVARIANT SizeSliceSmall
 INVARIANT EnvelopeByte
 INVARIANT Translation
 INVARIANT OriginalLength
+INVARIANT FlagIrrelevant
+INVARIANT FlagNeverHelps
+INVARIANT FlagPaired
+INVARIANT ReadingsSound
 POSTCONDITION AllCasesVisited
